@@ -8,8 +8,10 @@ plus random longer ones) are executed on the real objects; every step is logged 
 (ptype before, symbol, ptype after | exception type) and the log is replayed offline
 through the automaton.  Refused steps must leave both operands byte-identical.
 """
+import copy
 import itertools
 import os
+import pickle
 import re
 import warnings
 
@@ -25,7 +27,7 @@ ASSUMPTIONS = ['the documentation tables of the tree under test are the specific
                'propagate_fft refusing tilt-carrying wavefronts (NotImplementedError) is C09\'s rule, not a table entry']
 EXHAUSTIVE = True
 PLAN = {'quick': {'gen': 8}, 'thorough': {'gen': 16, 'tests': 1}}
-REQUIRED_BUCKETS = ['form:scalar', 'form:disjoint', 'start:none', 'start:pupil', 'start:image', 'len:1', 'len:2', 'len:3', 'random-long',
+REQUIRED_BUCKETS = ['form:mismatch', 'copy-step', 'form:scalar', 'form:disjoint', 'start:none', 'start:pupil', 'start:image', 'len:1', 'len:2', 'len:3', 'random-long',
                     'cell:allowed', 'cell:refused', 'propagate:allowed', 'propagate:refused']
 REQUIRED_ANCHORS = ['anchor:_can_mul_ptype', 'anchor:_mul_result_ptype', 'anchor:_propagate_ptype', 'anchor:Image.multiply',
                     'anchor:PType.__eq__']
@@ -37,6 +39,9 @@ PLANES = ['Plane', 'Pupil', 'Image', 'Tilt', 'DispersiveTilt', 'Grism', 'Rotate'
 GENERIC = ['ptype:none', 'ptype:pupil', 'ptype:image', 'ptype:tilt', 'ptype:transform']
 PROPS = ['propagate_dft', 'propagate_fft']
 SYMBOLS = PLANES + GENERIC + PROPS
+# copying a wavefront (deep copy, pickle round trip) is the identity on its plane type
+COPIES = ['deepcopy', 'pickle']
+_SHARED = {}      # tilt-like plane instances shared by every program of a shard (a plane must not remember its callers)
 
 
 def anchors(lentil):
@@ -90,6 +95,13 @@ def make_plane(lentil, name, w, form='array'):
     'left'/'right': arrays supported on disjoint halves (two of them in a row leave a field-less wavefront)."""
     ps = None if w.pixelscale is not None else DX
     a = np.ones((4, 4))
+    if form == 'mismatch':
+        # a pixel scale that contradicts the wavefront's: a forbidden pair must still be refused with TypeError
+        ps = DX * 1.5 if w.pixelscale is None else tuple(float(x) * 1.5 for x in w.pixelscale)
+    if form in ('array', 'scalar') and name in ('Tilt', 'DispersiveTilt', 'Grism'):
+        if name not in _SHARED:
+            _SHARED[name] = make_plane(lentil, name, w, 'fresh')
+        return _SHARED[name]
     if form == 'scalar':
         a, ps = 1, None
     elif form == 'left':
@@ -136,6 +148,15 @@ def run_program(ctx, lentil, start, prog, traces, forms=None):
         form = forms[k] if forms else 'array'
         before = str(w.ptype)
         has_tilt = any(f.tilt for f in w.data)
+        if sym in COPIES:
+            try:
+                w2 = copy.deepcopy(w) if sym == 'deepcopy' else pickle.loads(pickle.dumps(w))
+                trace.append((before, sym, str(w2.ptype), None))
+                w = w2
+            except Exception as e:
+                trace.append((before, sym, 'raise:' + type(e).__name__, {'msg': str(e)[:120]}))
+                break
+            continue
         if sym in PROPS:
             fw = probe.fingerprint(w)
             try:
@@ -165,11 +186,11 @@ def run_program(ctx, lentil, start, prog, traces, forms=None):
             fw, fp = probe.fingerprint(w), probe.fingerprint(plane)
             try:
                 out = plane.multiply(w) if len(trace) % 2 else w * plane
-                trace.append((before, sym, str(out.ptype), {'plane_ptype': str(plane.ptype)}))
+                trace.append((before, sym, str(out.ptype), {'plane_ptype': str(plane.ptype), 'form': form}))
                 w = out
             except Exception as e:
                 unchanged = probe.fingerprint(w) == fw and probe.fingerprint(plane) == fp
-                trace.append((before, sym, 'raise:' + type(e).__name__, {'unchanged': unchanged,
+                trace.append((before, sym, 'raise:' + type(e).__name__, {'unchanged': unchanged, 'form': form,
                                                                           'plane_ptype': str(plane.ptype),
                                                                           'msg': str(e)[:120]}))
                 if not isinstance(e, TypeError):
@@ -194,6 +215,26 @@ def workload(ctx, lentil):
                     # the same program with planes that carry no array data at all (scalar attributes, no pixel scale)
                     ctx.case({'start': start, 'prog': list(prog), 'form': 'scalar'}, ['form:scalar'])
                     run_program(ctx, lentil, start, prog, traces, forms=['scalar'] * L)
+    # forbidden and allowed pairs again with a plane whose pixel scale contradicts the wavefront's
+    k = 0
+    for start in ('pupil', 'image'):
+        for L in range(1, 3):
+            for prog in itertools.product(['Plane', 'Pupil', 'Image', 'ptype:tilt', 'ptype:transform', 'propagate_dft'], repeat=L):
+                k += 1
+                if k % ctx.nshards != ctx.shard:
+                    continue
+                ctx.case({'start': start, 'prog': list(prog), 'form': 'mismatch'}, ['form:mismatch'])
+                run_program(ctx, lentil, start, prog, traces, forms=['mismatch'] * L)
+    # copies of the wavefront (deepcopy / pickle round trip) anywhere in a program
+    k = 0
+    for start in ('none', 'pupil', 'image'):
+        for L in range(1, 5):
+            for prog in itertools.product(['Pupil', 'Image', 'Tilt', 'deepcopy', 'pickle', 'propagate_dft', 'propagate_fft'], repeat=L):
+                k += 1
+                if k % ctx.nshards != ctx.shard or not (set(prog) & set(COPIES)):
+                    continue
+                ctx.case({'start': start, 'prog': list(prog)}, ['copy-step'])
+                run_program(ctx, lentil, start, prog, traces)
     # programs that empty the wavefront (two apertures with disjoint support) before propagating
     mini = ['Pupil', 'Image', 'Tilt', 'propagate_dft', 'propagate_fft']
     k = 0
@@ -265,6 +306,10 @@ def finish(ctx, lentil):
             if outcome.startswith('skip:'):
                 ctx.skip(outcome)
                 continue
+            if sym in COPIES:
+                ctx.check(outcome == before, 'trace=automaton', f'copy|{sym}|{outcome.split(":")[0]}',
+                          'copying a wavefront changed its plane type (or failed)', wit)
+                continue
             if sym in PROPS:
                 if before in prop:
                     if outcome == 'raise:NotImplementedError' and sym == 'propagate_fft' and info and info.get('tilt'):
@@ -295,6 +340,9 @@ def finish(ctx, lentil):
                               f'step|class={sym}|refused|changed', 'a refused multiplication changed an operand', wit)
             else:
                 ctx.bucket('cell:allowed')
+                if info and info.get('form') == 'mismatch':
+                    ctx.skip('allowed pair with contradicting pixel scales (refusal is C07\'s clause)')
+                    continue
                 if outcome.startswith('raise:') or outcome.startswith('construct-raise:'):
                     ctx.check(False, 'trace=automaton', f'step|class={sym}|{outcome.replace("raise:", "raises=")}',
                               f'documented plane class {sym} could not be applied to a compatible ({before}) wavefront', wit)
